@@ -26,6 +26,38 @@ ASSUMPTIONS = [
 ]
 N_CASES = 30000
 N_N = 18000
+# third family (cases T:i): trailing white space that the scan accepts or rejects by a narrow margin, in every kind of
+# leaf: the fix side of a rule must not be broader than its scan side (a file whose scan is clean stays byte-identical)
+T_LEAVES = [
+    "# Title{ws}\n\ntext\n",
+    "# Title #{ws}\n\ntext\n",
+    "Title{ws}\n=====\n\ntext\n",
+    "# T\n\nline one{ws}\nline two\n",
+    "# T\n\nlast line{ws}\n",
+    "# T\n\n- item{ws}\n  more\n",
+    "# T\n\n> quote{ws}\n> more\n",
+    "# T\n\n```text\ncode{ws}\n```\n",
+    "# T\n\n    code{ws}\n",
+    "# T\n\n<div>{ws}\n</div>\n",
+    "# T\n\n[a]: /u{ws}\n\n[a]\n",
+    "# T\n\n## Second{ws}\n\ntext{ws}\nmore\n",
+    "# T\n\n1. one{ws}\n   two\n1. three\n",
+    "# T\n\n---{ws}\n\ntext\n",
+]
+T_WS = ["  ", " ", "   ", "", "\t", "    "]
+T_SETS = [[], ["--set", "plugins.md009.br_spaces=$#3"], ["--strict-config", "--set", "plugins.md009.strict=$!True"], ["--set", "plugins.md009.list_item_empty_lines=$!True"]]
+N_T = len(T_LEAVES) * len(T_WS) * len(T_SETS) * 2
+
+
+def t_case(i):
+    leaf = T_LEAVES[i % len(T_LEAVES)]
+    j = i // len(T_LEAVES)
+    ws = T_WS[j % len(T_WS)]
+    j //= len(T_WS)
+    sets = T_SETS[j % len(T_SETS)]
+    j //= len(T_SETS)
+    return {"a.md": leaf.replace("{ws}", ws)}, ("minimal" if j % 2 else "default"), sets
+
 
 
 def universe_hash():
@@ -42,8 +74,8 @@ def plan(tier, seed, complete=False):
         idx = R(mix("C10", seed)).sample(N_CASES, 1600)
         nidx = R(mix("C10N", seed)).sample(N_N, 900)
     return {
-        "items": [f"K:{i}" for i in idx] + [f"N:{i}" for i in nidx],
-        "zones": {"file-set cases": {"universe": N_CASES, "run": len(idx)}, "line-ending x entry-point (CLI fix, API fix_path, API fix_string) x scheme cases": {"universe": N_N, "run": len(nidx)}},
+        "items": [f"K:{i}" for i in idx] + [f"N:{i}" for i in nidx] + [f"T:{i}" for i in range(N_T)],
+        "zones": {"file-set cases": {"universe": N_CASES, "run": len(idx)}, "trailing-white-space x leaf kind x MD009 settings x scheme (T, always complete)": {"universe": N_T, "run": N_T}, "line-ending x entry-point (CLI fix, API fix_path, API fix_string) x scheme cases": {"universe": N_N, "run": len(nidx)}},
         "exhaustive": False,
         "rule": "case i = 1-3 files drawn from Z1/Z3 by index arithmetic (clean, fixable and unfixable-failing mixes), scheme default/minimal by parity; "
         "distinct = cases in which at least one file was changed by fix",
@@ -136,7 +168,10 @@ def run_items(items, job):
         if fam == "N":
             _run_n(app, sb, fixset, R, key, ci)
             continue
-        files, scheme = case_files(ci)
+        if fam == "T":
+            files, scheme, tsets = t_case(ci)
+        else:
+            (files, scheme), tsets = case_files(ci), []
         R.evals += 1
         if any(d == "" for d in files.values()):
             pass
@@ -145,8 +180,8 @@ def run_items(items, job):
         for n, d in files.items():
             paths.append(sb.write(n, d))
         v = set()
-        detail = {"case": ci, "files": files, "scheme": scheme}
-        sargs = ["--return-code-scheme", scheme]
+        detail = {"case": ci if fam == "K" else f"{fam}:{ci}", "files": files, "scheme": scheme}
+        sargs = ["--return-code-scheme", scheme] + tsets
         # ---- read-only invocations
         before = sb.snapshot()
         for label, fn in (
@@ -177,7 +212,7 @@ def run_items(items, job):
         fixable = {}
         scan_ok = True
         for n, p in zip(files, paths):
-            o = app.scan_files([p])
+            o = app.scan_files([p], extra=tsets)
             if o.watchdog or o.tokenization_error or o.plugin_error:
                 scan_ok = False
                 break
